@@ -252,28 +252,6 @@ void touch_static_array_ro(A a)
     (void)a.strlen_r();
 }
 
-template<typename A>
-void touch_static_array_rw(A a)
-{
-    typedef typename A::value_type V;
-    const V src[2] = {};
-    (void)a.assign_string("x");
-    (void)a.assign_string("x", ::sbepp::eos_null::single);
-    (void)a.assign_string(src);
-    (void)a.assign_range(src);
-    a.fill(V{});
-    (void)a.assign(1, V{});
-    (void)a.assign(src, src + 1);
-    (void)a.assign({V{}, V{}});
-}
-
-template<typename A>
-void touch_dynamic_array_ro(A a)
-{
-    touch_array_ro(a);
-    (void)a.sbe_size();
-}
-
 // a single-pass iterator: instantiates the input-iterator overloads (element by element insertion)
 template<typename V>
 struct input_it
@@ -310,6 +288,29 @@ struct input_it
 };
 
 template<typename A>
+void touch_static_array_rw(A a)
+{
+    typedef typename A::value_type V;
+    const V src[2] = {};
+    (void)a.assign_string("x");
+    (void)a.assign_string("x", ::sbepp::eos_null::single);
+    (void)a.assign_string(src);
+    (void)a.assign_range(src);
+    a.fill(V{});
+    (void)a.assign(1, V{});
+    (void)a.assign(src, src + 1);
+    (void)a.assign(input_it<V>{src}, input_it<V>{src + 1});
+    (void)a.assign({V{}, V{}});
+}
+
+template<typename A>
+void touch_dynamic_array_ro(A a)
+{
+    touch_array_ro(a);
+    (void)a.sbe_size();
+}
+
+template<typename A>
 void touch_dynamic_array_rw(A a)
 {
     typedef typename A::value_type V;
@@ -329,6 +330,7 @@ void touch_dynamic_array_rw(A a)
     (void)a.insert(a.begin(), {V{}, V{}});
     a.assign(1, V{});
     a.assign(src, src + 1);
+    a.assign(input_it<V>{src}, input_it<V>{src + 1});
     a.assign({V{}, V{}});
     a.assign_string("x");
     a.assign_range(src);
